@@ -368,10 +368,15 @@ def _unknown(ck: Checker, fn: Func, g, descents) -> None:
     n_q = 0
     for d in descents:
         for c in calls_at(d):
-            if not (c.args and isinstance(c.args[0], ast.Tuple) and len(c.args[0].elts) >= 3):
+            tup = c.args[0] if c.args else None
+            if isinstance(tup, ast.Name):
+                # `level = (old_items, new_items, flag); todo.append(level)`
+                tups = [a_ for a_ in value_alts(ck.cfg(fn), d, tup, depth=2) if isinstance(a_, ast.Tuple)]
+                tup = tups[0] if len(tups) == 1 else None
+            if not (isinstance(tup, ast.Tuple) and len(tup.elts) >= 3):
                 continue
             n_q += 1
-            flag = c.args[0].elts[2]
+            flag = tup.elts[2]
             ok, seen = False, []
             for alt in [flag] + expand1(prog, fn, flag, levels=3):
                 seen.append(norm(alt)[:80])
